@@ -370,9 +370,15 @@ def _sequence(pk, params, inp, root):
             b1 = open(path, "rb").read() if os.path.exists(path) else None
             failed["file_unchanged"] = b0 == b1
             try:
-                failed["still_readable"] = sorted((_read_raw(pk, path) or {}).keys()) == sorted(ref.keys())
+                names_now = sorted((_read_raw(pk, path) or {}).keys())
+                failed["still_readable"] = names_now == sorted(ref.keys())
+                # a package that can serialise such metadata after all is fine too: the run is then simply saved
+                failed["saved_instead"] = failed["raised"] is None and names_now == sorted(list(ref.keys()) + ["rejected-run"])
+                if failed["saved_instead"]:
+                    ref["rejected-run"] = None
             except Exception as e:  # noqa: BLE001
                 failed["still_readable"] = False
+                failed["saved_instead"] = False
         name = pool[inp.choose(len(pool), f"name-of-save-{i}")]
         o, d, a = _output(pk, inp, f"s{i}", pays[(i + 2) % len(pays)], metas[(i + 1) % len(metas)], ids=via_save)
         produced = {"data": _entries(d), "actions": _entries(a), "meta_ref": _stringified(META[metas[(i + 1) % len(metas)]]())}
@@ -391,6 +397,8 @@ def _sequence(pk, params, inp, root):
     final = {}
     outs = sv.get_outputs_from_file(Path(path))
     for nm in sorted(ref):
+        if ref[nm] is None:
+            continue
         o = outs.get(nm)
         final[nm] = None if o is None else {"data": _entries(o.data), "actions": _entries(o.actions), "meta": dict(vars(o.parsed_args))}
     folder = os.path.dirname(path)
@@ -557,6 +565,8 @@ def claims(params, inp, out, lg):
         cl.append((f"earlier-entries-unchanged:save={i}", _raw_equal(lg, st["earlier_raw_before"], st["earlier_raw_after"]),
                    "C19/sequence/earlier-entry-changed"))
     for nm, ref in out["ref"].items():
+        if ref is None:
+            continue
         got = out["final"].get(nm)
         ok = got is not None
         cl.append((f"final-entry-is-the-first-save:{nm}:gaps", ok and _same_matrix(lg, ref["data"], got["data"]), "C19/sequence/final-gaps"))
@@ -565,7 +575,8 @@ def claims(params, inp, out, lg):
     cl.append(("no-stray-files-left-next-to-the-results", out["leftovers"] == [], "C19/sequence/leftovers"))
     if out.get("failed") is not None:
         f = out["failed"]
-        cl.append(("a-rejected-save-leaves-the-results-as-they-were", f["file_unchanged"] is True and f["still_readable"] is True and f["raised"] is not None,
+        cl.append(("a-rejected-save-leaves-the-results-as-they-were",
+                   (f["raised"] is not None and f["file_unchanged"] is True and f["still_readable"] is True) or f.get("saved_instead") is True,
                    "C19/sequence/failed-save-damages-results"))
     return cl
 
